@@ -22,9 +22,13 @@ esac
 export CARGO_TARGET_DIR=/tmp/seed-target
 mkdir -p $WT/$DIR/tests && cp $DEMO $WT/$DIR/tests/$TEST.rs
 cd $WT
-cargo test -q --offline -p $CRATE --test $TEST >/tmp/seed-$ID-$K.clean.log 2>&1; CLEAN=$?
+# the demo's own cargo command (it may need extra --features)
+DEMOCMD=$(grep -o "cargo test.*--features.*" $DEMO | head -1 | sed 's/[` ]*$//')
+[ -z "$DEMOCMD" ] && DEMOCMD=$(grep -m1 -o "cargo test.*" $DEMO | sed 's/[` ]*$//')
+case "$DEMOCMD" in *"--test $TEST"*) ;; *) DEMOCMD="cargo test --offline -p $CRATE --test $TEST";; esac
+$DEMOCMD >/tmp/seed-$ID-$K.clean.log 2>&1; CLEAN=$?
 git apply $DIFF || { echo "RESULT $ID-$K patch does not apply"; exit 3; }
-cargo test -q --offline -p $CRATE --test $TEST >/tmp/seed-$ID-$K.patched.log 2>&1; PATCHED=$?
+$DEMOCMD >/tmp/seed-$ID-$K.patched.log 2>&1; PATCHED=$?
 rm -f $WT/$DIR/tests/$TEST.rs; rmdir $WT/$DIR/tests 2>/dev/null
 cargo test -q --workspace --no-fail-fast --offline >/tmp/seed-$ID-$K.suite.log 2>&1; SUITE=$?
 echo "RESULT $ID-$K demo_clean_exit=$CLEAN demo_patched_exit=$PATCHED suite_with_patch_exit=$SUITE"
